@@ -2002,8 +2002,11 @@ class StreamingDecoder(object):
                 yield asn1Object
 
             for chunk in isEndOfStream(self._substrate):
-                if isinstance(chunk, SubstrateUnderrunError):
-                    yield
+                if chunk is None:
+                    # no data at the moment: whether another item
+                    # follows is not known yet
+                    yield SubstrateUnderrunError('No more data at the moment')
+                    continue
 
                 break
 
